@@ -190,7 +190,12 @@ def check_tiling(rep, rule, run: Run, D: Blocks, fi):
         M, N = cv.axes[0][0].size, cv.axes[1][0].size
     total = sym.add(M, N)
     ok = True
-    if not (sym.equal(D.shape[0], total) and sym.equal(D.shape[1], total)):
+    if unmodelled_in(D.shape[0]) or unmodelled_in(D.shape[1]) or unmodelled_in(total):
+        # the sizes were not followed (an object the evaluator could not build): no verdict on a value it did not derive
+        rep.unmodelled(rule, fi, D.stores[0]["node"] if D.stores else fi.node,
+                       f"the shape of the augmented matrix was not followed exactly ({(unmodelled_in(D.shape[0]) + unmodelled_in(total))[0]})")
+        ok = False
+    elif not (sym.equal(D.shape[0], total) and sym.equal(D.shape[1], total)):
         rep.refuted(rule, fi, D.stores[0]["node"] if D.stores else fi.node,
                     f"augmented matrix has shape ({sym.show(D.shape[0])}, {sym.show(D.shape[1])}), not (M+N, M+N)",
                     construct=f"shape of cost matrix in {fi.qualname}")
